@@ -1,6 +1,7 @@
 (* Extraction of the end-to-end credit model (Proto/Credit.v) for the C05 client-side
    correspondence check (ExtrOcamlBasic only): harness `chanflow` schedules are replayed through
    [wstep]; [send_ready] and [recv_result] are the observations. *)
+From Coq Require Import NArith.
 From Aldrin Require Import Broker.Model Proto.Credit.
 Require Extraction ExtrOcamlBasic.
 Extraction Language OCaml.
